@@ -243,6 +243,13 @@ var concScripts = map[string]func() [][]step{
 			{{Kind: "publish", Items: []pubItem{{"k1", "/p", "pk1"}, {"k2", "/p", "pk2"}}}, {Kind: "ingress", Route: "/p", Payload: "c3", Targets: []string{"pull"}}},
 		}
 	},
+	// two publishers (and a following ingress) racing: whatever a publish shares between requests shows here
+	"conc-publishers": func() [][]step {
+		return [][]step{
+			{{Kind: "publish", Items: []pubItem{{"u1", "/p", "pu1"}, {"u2", "/p", "pu2"}}}, {Kind: "ingress", Route: "/p", Payload: "u3", Targets: []string{"pull"}}},
+			{{Kind: "publish", Items: []pubItem{{"v1", "/p", "pv1"}, {"v2", "/p", "pv2"}, {"v3", "/p", "pv3"}}}},
+		}
+	},
 	// a producer racing with a consumer that settles what it gets
 	"conc-consumer": func() [][]step {
 		return [][]step{
